@@ -91,6 +91,7 @@ def run(chk):
     if only in ("p1", "p3"):
         return
     p2_frame(chk)
+    p4_call_sites(chk)
     bounded(chk)
     chk.assumptions += [
         "P1 (behavioural contracts of append_child/replace_child/remove_child/move_to/copy over an abstract heap and the WF lemmas over them) is not discharged: the proof part of this check is the frame obligation only; WF itself is observed by the bounded stand-in",
@@ -841,3 +842,70 @@ def replay_rbc(model, obligation):
                 if bad:
                     return True, {"ancestors": list(chain) + ["Table"], "problem": bad}, "rbc"
     return False, {"cases": n}, None
+
+
+# ----------------------------------------------------------------------------- P4: call sites of replace_child / remove_child meet "child is listed by the receiver"
+def p4_call_sites(chk):
+    """Precondition of replace_child / remove_child: `child` is in `self.children` (else _id_index raises ValueError).
+    Discharged per call site from well-formedness when the site has one of these shapes:
+      A  E.parent.replace_child(E, ...)                        - W2: an attached node is listed by its parent
+      B  for C in R.children[...]: ... R.remove_child(C)        - C was read from the receiver's list
+      C  P = E.parent ... P.replace_child(E, ...)               - A through a local alias assigned in the same function
+      D  R.remove_child(R.children[k])                          - C was read from the receiver's list by index
+    Other sites are listed as not discharged (bounded stand-in only), not reported as violations."""
+    import ast
+
+    def norm(e):
+        return ast.dump(e, annotate_fields=False)
+    total, shapes, open_sites = 0, {"A": 0, "B": 0, "C": 0, "D": 0}, []
+    for rel in FILES:
+        m = source.module(rel)
+        for fn in ast.walk(m.tree):
+            if not isinstance(fn, ast.FunctionDef):
+                continue
+            aliases = {}       # name -> expr whose .parent it holds
+            for n in ast.walk(fn):
+                if isinstance(n, ast.Assign) and len(n.targets) == 1 and isinstance(n.targets[0], ast.Name) \
+                        and isinstance(n.value, ast.Attribute) and n.value.attr == "parent":
+                    aliases.setdefault(n.targets[0].id, []).append(norm(n.value.value))
+            parents = {}
+            for n in ast.walk(fn):
+                for c in ast.iter_child_nodes(n):
+                    parents[c] = n
+            for n in ast.walk(fn):
+                if not (isinstance(n, ast.Call) and isinstance(n.func, ast.Attribute) and n.func.attr in ("replace_child", "remove_child") and n.args):
+                    continue
+                if fn.name in ("replace_child", "remove_child") and rel.endswith("advtree.py"):
+                    continue
+                total += 1
+                recv, child = n.func.value, n.args[0]
+                shape = None
+                if isinstance(recv, ast.Attribute) and recv.attr == "parent" and norm(recv.value) == norm(child):
+                    shape = "A"
+                elif isinstance(recv, ast.Name) and norm(child) in aliases.get(recv.id, []):
+                    shape = "C"
+                elif isinstance(child, ast.Subscript) and isinstance(child.value, ast.Attribute) and child.value.attr == "children" \
+                        and norm(child.value.value) == norm(recv) and not isinstance(child.slice, ast.Slice):
+                    shape = "D"
+                else:
+                    p = n
+                    while p in parents and shape is None:
+                        p = parents[p]
+                        if isinstance(p, ast.For) and isinstance(p.target, ast.Name) and isinstance(child, ast.Name) and p.target.id == child.id:
+                            it = p.iter
+                            if isinstance(it, ast.Subscript):
+                                it = it.value
+                            if isinstance(it, ast.Call) and isinstance(it.func, ast.Name) and it.func.id in ("list", "reversed") and it.args:
+                                it = it.args[0]
+                            if isinstance(it, ast.Subscript):
+                                it = it.value
+                            if (isinstance(it, ast.Attribute) and it.attr == "children" and norm(it.value) == norm(recv)) or norm(it) == norm(recv):
+                                shape = "B"
+                if shape:
+                    shapes[shape] += 1
+                    chk.static(f"callsite.{rel.split('/')[-1]}:{fn.name}:{n.lineno}.child_is_listed_by_the_receiver", True,
+                               f"shape {shape}: {ast.unparse(n)[:90]}")
+                else:
+                    open_sites.append(f"src/{rel}:{n.lineno} {fn.name}: {ast.unparse(n)[:100]}")
+    chk.static("callsite.scan_found_the_call_sites", total >= 40, f"{total} call sites of replace_child / remove_child outside the primitives")
+    chk.extra["call_sites"] = {"total": total, "discharged_by_shape": shapes, "not_discharged (bounded stand-in only)": open_sites}
